@@ -464,6 +464,9 @@ def minimize_lbfgsb(
     # upgrade the gradient and the past sequence of gradients accordingly
     if update_fun_def is not None:
         f0, f0_old, grad, G = update_fun_def(x, f0, copy.copy(f0), grad, X, G)
+        if len(X) > 0:
+            # restart: the restored history may have been rewritten
+            X, G = make_X_and_G_respect_strong_wolfe(X, G, eps_SY, logger=logger)
 
     if len(X) > 0:
         # only happens if checkpoint is provided (L-BFGS-B restart)
@@ -592,6 +595,11 @@ def minimize_lbfgsb(
             else:
                 f0, f0_old, grad, G = update_fun_def(x, f0, f0_old, grad, X, G)
 
+                # We must check if the updated G satisfy the strong wolfe condition.
+                # This comes before the stop tests so that the pairs carried by the
+                # result are also filtered when the run stops at this iteration.
+                X, G = make_X_and_G_respect_strong_wolfe(X, G, eps_SY, logger=logger)
+
                 # Check stop criterion: minimum objective function value
                 if is_f0_target_reached(f0 / sf.scaling_factor, _ftarget, istate):
                     break  # the while loop
@@ -600,9 +608,6 @@ def minimize_lbfgsb(
                 # objective function
                 elif is_f0_min_change_reached(f0, f0_old, ftol, istate):
                     break  # the while loop
-
-                # We must check if the updated G satisfy the strong wolfe condition
-                X, G = make_X_and_G_respect_strong_wolfe(X, G, eps_SY, logger=logger)
 
             mats = update_lbfgs_matrices(
                 x.copy(),  # copy otherwise x might be changed in X when updated
